@@ -48,6 +48,12 @@ def generated_items(seed, tier, bias, scale=1.0):
             if it["name"].startswith(("dead;", "cond;", "fold;", "foldc;")):
                 items.append(dict(name="fold:" + it["name"], text=it["text"]))
     if bias == "own":
+        # expression statements without effect (listed finding valueless_expression_statement) and compound shifts with converted operands
+        for k, text in enumerate(["{ RsV + 1; RdV = RtV; }", "{ int32_t q = RsV; q * 2; RdV = q; }", "{ if (RsV) { RtV; } RdV = 1; }"]):
+            items.append(dict(name=f"valueless{k}", text=text))
+        for t in gen.TYPES:
+            for op in ("<<=", ">>="):
+                items.append(dict(name=f"cshift;{t};{op}", text=f"{{ {t} q = ({t}) RsV; q {op} (RsV > RtV); RddV = q; int32_t z = RtV; z {op} (q & 7); ReV = z; }}"))
         # heavy operand re-use
         for i in range(60 if tier == "quick" else 600):
             r = rng.choice(["RsV", "RtV", "RuuV", "uiV", "siV", "PwV"])
